@@ -837,6 +837,211 @@ func (env *SpecEnv) call(n *ast.CallExpr) sv {
 		}
 		got := shortType(iv.Dyn)
 		return sv{V: c.And(c.Not(iv.IsNil), c.Bool(got == want)), T: boolT}
+	case "hastoken", "tokens_distinct", "tokens_in", "tokencount":
+		// token predicates on a concrete string (evaluated per path, after the code built the string)
+		v := arg(0)
+		sv0, ok := v.V.(*StringVal)
+		if !ok {
+			env.fail("%s of %T", name, v.V)
+		}
+		str, isC := concreteString(sv0)
+		if !isC && sv0.Tag != nil && len(sv0.Tag.Segs) == 1 && sv0.Tag.Segs[0].Kind == "condjoin" {
+			return env.condTokens(name, n, sv0.Tag.Segs[0])
+		}
+		if !isC {
+			env.fail("%s: the string is not concrete on this path (symbolic list / abstracted call)", name)
+		}
+		sepArg := 1
+		if name == "hastoken" {
+			sepArg = 2
+		}
+		sepV, ok := arg(sepArg).V.(*StringVal)
+		if !ok {
+			env.fail("%s: separator must be a string literal", name)
+		}
+		sep, _ := concreteString(sepV)
+		var toks []string
+		if str != "" {
+			toks = strings.Split(str, sep)
+		}
+		switch name {
+		case "hastoken":
+			wantV, _ := arg(1).V.(*StringVal)
+			want, _ := concreteString(wantV)
+			found := false
+			for _, t := range toks {
+				if t == want {
+					found = true
+				}
+			}
+			return sv{V: c.Bool(found), T: boolT}
+		case "tokens_distinct":
+			seen := map[string]bool{}
+			okd := true
+			for _, t := range toks {
+				if seen[t] {
+					okd = false
+				}
+				seen[t] = true
+			}
+			return sv{V: c.Bool(okd), T: boolT}
+		case "tokens_in":
+			setV, _ := arg(2).V.(*StringVal)
+			set, _ := concreteString(setV)
+			allowed := map[string]bool{}
+			for _, a := range strings.Split(set, ",") {
+				allowed[a] = true
+			}
+			oki := true
+			for _, t := range toks {
+				if !allowed[t] {
+					oki = false
+				}
+			}
+			return sv{V: c.Bool(oki), T: boolT}
+		default:
+			return sv{V: e.idx(int64(len(toks))), T: types.Typ[types.Int]}
+		}
+	case "haselem", "elems_distinct", "elems_in", "elemcount":
+		// predicates over a list of string literals held in a slice (concrete or conditional list)
+		v := arg(0)
+		if lz, ok := v.V.(*LazyVal); ok {
+			v.V = e.symVal(env.st, lz.T, lz.Name, 0)
+		}
+		sl, ok := v.V.(*SliceVal)
+		if !ok {
+			env.fail("%s of %T", name, v.V)
+		}
+		var items []CondItem
+		concrete := true
+		if sl.Obj != 0 {
+			av := e.sliceBacking(env.st, sl)
+			if av.List == nil || !sl.Off.IsConst() || sl.Off.C.Sign() != 0 {
+				concrete = false
+			} else {
+				nl := len(av.List)
+				if av.Conds == nil {
+					if !sl.Len.IsConst() {
+						concrete = false
+					} else {
+						nl = int(sl.Len.C.Int64())
+					}
+				}
+				for i := 0; concrete && i < nl; i++ {
+					sv0, isS := av.List[i].(*StringVal)
+					if !isS {
+						concrete = false
+						break
+					}
+					cs, isC := concreteString(sv0)
+					if !isC {
+						concrete = false
+						break
+					}
+					cd := c.True()
+					if av.Conds != nil {
+						cd = av.Conds[i]
+					}
+					items = append(items, CondItem{Cond: cd, Lit: cs})
+				}
+			}
+		}
+		if !concrete {
+			// the list is not determined by this call alone (e.g. it extends a list the receiver already held)
+			if name == "elemcount" {
+				return sv{V: c.Fresh("elemcount", e.idxSort()), T: types.Typ[types.Int]}
+			}
+			return sv{V: c.Fresh(name, BoolS), T: boolT}
+		}
+		seg := StrSeg{Kind: "condjoin", Lit: "\x00", Items: items}
+		switch name {
+		case "haselem":
+			want, _ := concreteString(arg(1).V.(*StringVal))
+			r := c.False()
+			for _, it := range items {
+				if it.Lit == want {
+					r = c.Or(r, it.Cond)
+				}
+			}
+			return sv{V: r, T: boolT}
+		case "elems_distinct":
+			r := c.True()
+			for i := range items {
+				for j := i + 1; j < len(items); j++ {
+					if items[i].Lit == items[j].Lit {
+						r = c.And(r, c.Not(c.And(items[i].Cond, items[j].Cond)))
+					}
+				}
+			}
+			return sv{V: r, T: boolT}
+		case "elems_in":
+			set, _ := concreteString(arg(1).V.(*StringVal))
+			allowed := map[string]bool{}
+			for _, a := range strings.Split(set, ",") {
+				allowed[a] = true
+			}
+			r := c.True()
+			for _, it := range items {
+				if !allowed[it.Lit] {
+					r = c.And(r, c.Not(it.Cond))
+				}
+			}
+			return sv{V: r, T: boolT}
+		default:
+			_ = seg
+			t := e.idx(0)
+			for _, it := range items {
+				t = c.Add(t, c.Ite(it.Cond, e.idx(1), e.idx(0)))
+			}
+			return sv{V: t, T: types.Typ[types.Int]}
+		}
+	case "inmap":
+		// inmap(Table, k): k is a key of the package-level map Table (same predicate the engine uses for lookups)
+		id, ok := n.Args[0].(*ast.Ident)
+		if !ok {
+			env.fail("inmap: first argument must name a package-level map")
+		}
+		kv := arg(1)
+		kt, ok := kv.V.(*Term)
+		if !ok {
+			env.fail("inmap: key must be a scalar")
+		}
+		return sv{V: c.App("inmap_global."+id.Name, BoolS, kt), T: boolT}
+	case "errtext_has_hex":
+		// errtext_has_hex(err, x, w): err was built by fmt.Errorf / errors.New and its text contains x in %0wx form
+		v := arg(0)
+		iv, ok := v.V.(*IfaceVal)
+		if !ok {
+			env.fail("errtext_has_hex of %T", v.V)
+		}
+		if iv.Msg == nil || iv.Msg.Tag == nil {
+			return sv{V: c.False(), T: boolT}
+		}
+		wv := arg(2)
+		if wv.U == nil {
+			env.fail("errtext_has_hex: width must be a constant")
+		}
+		r := c.False()
+		for _, sg := range iv.Msg.Tag.Segs {
+			if (sg.Kind == "hex" || sg.Kind == "HEX") && sg.W == int(wv.U.Int64()) {
+				x, _ := env.term(arg(1), sv{V: sg.T})
+				if x.S == sg.T.S {
+					r = c.Or(r, c.Eq(sg.T, x))
+				}
+			}
+		}
+		return sv{V: r, T: boolT}
+	case "ordered":
+		// ordered(s): the order of the tokens of s is determined by the code (not by map iteration order)
+		v := arg(0)
+		sv0, ok := v.V.(*StringVal)
+		if !ok {
+			env.fail("ordered of %T", v.V)
+		}
+		if sv0.Tag != nil && len(sv0.Tag.Segs) == 1 && sv0.Tag.Segs[0].Kind == "condjoin" {
+			return sv{V: c.Bool(!sv0.Tag.Segs[0].Unordered), T: boolT}
+		}
+		return sv{V: c.True(), T: boolT}
 	case "isdec":
 		// isdec(s, x): s is the decimal rendering of an integer equal to x
 		v := arg(0)
@@ -1084,4 +1289,63 @@ func concreteString(s *StringVal) (string, bool) {
 		b[i] = byte(l.Vals[off+i].C.Uint64())
 	}
 	return string(b), true
+}
+
+// condTokens evaluates token predicates on a string built by Join over a conditional list of literals.
+func (env *SpecEnv) condTokens(name string, n *ast.CallExpr, sg StrSeg) sv {
+	e := env.e
+	c := e.C
+	boolT := types.Typ[types.Bool]
+	lit := func(i int) string {
+		v, ok := env.eval(n.Args[i]).V.(*StringVal)
+		if !ok {
+			env.fail("%s: argument %d must be a string literal", name, i)
+		}
+		s, _ := concreteString(v)
+		return s
+	}
+	switch name {
+	case "hastoken":
+		if lit(2) != sg.Lit {
+			env.fail("hastoken: separator differs from the one used by the code (%q)", sg.Lit)
+		}
+		want := lit(1)
+		r := c.False()
+		for _, it := range sg.Items {
+			if it.Lit == want {
+				r = c.Or(r, it.Cond)
+			}
+		}
+		return sv{V: r, T: boolT}
+	case "tokens_distinct":
+		r := c.True()
+		for i := range sg.Items {
+			for j := i + 1; j < len(sg.Items); j++ {
+				if sg.Items[i].Lit == sg.Items[j].Lit {
+					r = c.And(r, c.Not(c.And(sg.Items[i].Cond, sg.Items[j].Cond)))
+				}
+			}
+		}
+		return sv{V: r, T: boolT}
+	case "tokens_in":
+		allowed := map[string]bool{}
+		for _, a := range strings.Split(lit(2), ",") {
+			allowed[a] = true
+		}
+		r := c.True()
+		for _, it := range sg.Items {
+			if !allowed[it.Lit] || strings.Contains(it.Lit, sg.Lit) {
+				r = c.And(r, c.Not(it.Cond))
+			}
+		}
+		return sv{V: r, T: boolT}
+	case "tokencount":
+		t := e.idx(0)
+		for _, it := range sg.Items {
+			t = c.Add(t, c.Ite(it.Cond, e.idx(1), e.idx(0)))
+		}
+		return sv{V: t, T: types.Typ[types.Int]}
+	}
+	env.fail("unsupported token predicate %s", name)
+	return sv{}
 }
